@@ -187,7 +187,7 @@ def main():
   chk = common.Check("C06", "translation_validation", args)
   kf = {f["id"]: f for f in chk.kf.get("findings", []) if "C06" in f["property"]}
   kinds = ["FC", "TCONV", "BMM", "EMB", "EW2", "FIXT", "UNSUP"]
-  c = configs.cfg(2, kinds, FLOAT_MODES, [configs.NOQ], [configs.NOQ], share="tensor")
+  c = configs.cfg(2, kinds, FLOAT_MODES, [configs.NOQ], [configs.NOQ], share="tensor", layout="both")
   r, dumps = pipecheck.design_run("C06_float", c, ["InvSkeleton", "InvModes", "InvBytes"], timeout=7200)
   if r.error or r.rc not in (0, 12):
     chk.machinery("TLC failed: %s" % r.out[-600:])
